@@ -306,7 +306,41 @@ fn case<S: std::fmt::Debug + Clone + 'static>(item: impl Strategy<Value = S> + '
         })
 }
 
+/// Writes a few valid frame streams as seed corpus of the `c26_codec` fuzz target.
+fn seed_corpus(ctx: &Ctx) {
+    use crate::fuzz_c26::FuzzMsg;
+    let dir = ctx.verif_dir.join("fuzz").join("corpus").join("c26_codec");
+    if dir.exists() {
+        return;
+    }
+    std::fs::create_dir_all(&dir).ok();
+    let streams: Vec<Vec<FuzzMsg>> = vec![
+        vec![FuzzMsg::D],
+        vec![FuzzMsg::A(vec![1, 2, 3]), FuzzMsg::B("hello".into())],
+        vec![FuzzMsg::C(7, u64::MAX), FuzzMsg::D, FuzzMsg::A(vec![0; 40])],
+        vec![FuzzMsg::B("x".repeat(70)), FuzzMsg::C(0, 0)],
+    ];
+    for (i, msgs) in streams.iter().enumerate() {
+        for sel in [0u8, 1, 2, 3] {
+            let mut bytes = vec![sel, (i as u8) * 37 + sel];
+            for m in msgs {
+                bytes.extend(reference_frame(m));
+            }
+            std::fs::write(dir.join(format!("seed-{i}-{sel}")), bytes).ok();
+        }
+    }
+}
+
 pub fn run(mut ctx: Ctx) -> ! {
+    seed_corpus(&ctx);
+    ctx.run_fuzz(
+        engine::fuzz::FuzzSpec {
+            target: "c26_codec",
+            rule: "libFuzzer over arbitrary byte streams: decoding in one piece, decoding in generated chunks and a reference frame walker must agree on the decoded items and on where/why decoding stops; every decoded item round-trips; non-trivial = >=2 frames decoded",
+            thorough_secs: 90,
+        },
+        crate::fuzz_c26::c26_oracle,
+    );
     ctx.assume("reference framing = u32 big-endian length ++ postcard::to_allocvec (the documented wire format)");
     ctx.run_prop(
         Part::new(
